@@ -54,9 +54,14 @@ SumSeq(s) == IF s = <<>> THEN 0 ELSE Head(s) + SumSeq(Tail(s))
 \* well-formed camel-case pieces: a lower-case word may only stand first (elsewhere it would
 \* continue the previous word); every other piece is Capitalised, ALLCAPS (acronym / single
 \* letter) or a digit run
+\* an underscore run separates words and is no word itself (should_reject__emptyOrder, _load, total_); the word after it
+\* may be lower-case
+IsUnderscores(p) == AllIn(p, {"_"})
 PieceOK(ps, i) == \/ i = 1 /\ IsAllLower(ps[i])
                   \/ IsCapitalised(ps[i]) \/ IsAllUpper(ps[i])
                   \/ i > 1 /\ IsDigits(ps[i])
+                  \/ IsUnderscores(ps[i]) /\ (i = 1 \/ ~IsUnderscores(ps[i - 1]))
+                  \/ i > 1 /\ IsUnderscores(ps[i - 1]) /\ IsAllLower(ps[i])
 NameOK(ps) == Len(ps) > 0 /\ \A i \in DOMAIN ps : PieceOK(ps, i)
 
 \* Free_C18_AmbiguousCamel: two adjacent ALLCAPS pieces ("URL" "X" -> "URLX") cannot be told apart
@@ -182,7 +187,7 @@ DiffEval(rec) ==
 \* the statement fixes the SUM only; which words are listed and in which order is free
 ConceptJudged(in) == \A x \in Members(in) : NameOK(Mem(in, x).name) /\ ~Ambiguous(Mem(in, x).name)
 
-NonStopWords(ps, stop) == Cardinality({i \in DOMAIN ps : ~IsDigits(ps[i]) /\ LowerStr(ps[i]) \notin stop})
+NonStopWords(ps, stop) == Cardinality({i \in DOMAIN ps : ~IsDigits(ps[i]) /\ ~IsUnderscores(ps[i]) /\ LowerStr(ps[i]) \notin stop})
 DigitWords(ps) == Cardinality({i \in DOMAIN ps : IsDigits(ps[i])})
 
 \* Known defect shape (tag concept.single-letter-head-glued; third-party camel-case splitter): a name whose
